@@ -27,12 +27,28 @@ theorem foldlM_inv {α β : Type} (f : β → α → Option β) (P : β → Prop
       rw [foldlM_some_cons f b b' a l hfa] at h
       exact ih b' r (hf b a b' hfa hb) h
 
+/-- a step that is rejected whatever the state makes the whole fold rejected -/
+theorem foldlM_none_of_mem {α β : Type} (f : β → α → Option β) (a : α) (hf : ∀ b, f b a = none) :
+    ∀ (l : List α) (b : β), a ∈ l → l.foldlM f b = none := by
+  intro l
+  induction l with
+  | nil => intro b h; simp at h
+  | cons x l ih =>
+    intro b h
+    cases hx : f b x with
+    | none => exact foldlM_none_cons f b x l hx
+    | some b' =>
+      rw [foldlM_some_cons f b b' x l hx]
+      rcases List.mem_cons.1 h with e | e
+      · subst e; rw [hf b] at hx; cases hx
+      · exact ih b' e
+
 /-! ## node metadata copied from the source -/
 
 theorem copyNodeMeta_eq (src h : Content κ) (n : Node) (md : Meta)
     (hs : AL.get? src.nodes n = some md) (hh : n ∈ nodesOf h) :
     copyNodeMeta src h n = some { h with nodes := AL.set h.nodes n md } := by
-  have : AL.has h.nodes n = true := (AL.has_iff _ _).2 hh
+  have : AL.has h.nodes n = true := (C05AL.has_iff _ _).2 hh
   simp [copyNodeMeta, getNodeMeta, hs, setNodeMeta, this]
 
 theorem foldCopyNodeMeta (src : Content κ) :
@@ -46,11 +62,11 @@ theorem foldCopyNodeMeta (src : Content κ) :
   | cons n ns ih =>
     intro h hall
     obtain ⟨hnh, hns⟩ := hall n (by simp)
-    obtain ⟨md, hmd⟩ := Option.isSome_iff_exists.1 ((AL.mem_keys_iff _ _).1 hns)
+    obtain ⟨md, hmd⟩ := Option.isSome_iff_exists.1 ((C05AL.mem_keys_iff _ _).1 hns)
     have hstep := copyNodeMeta_eq src h n md hmd hnh
     have hkeys : nodesOf ({ h with nodes := AL.set h.nodes n md } : Content κ) = nodesOf h := by
       simp only [nodesOf]
-      exact AL.keys_set_of_mem _ _ _ ((AL.mem_keys_iff _ _).1 hnh)
+      exact AL.keys_set_of_mem _ _ _ ((C05AL.mem_keys_iff _ _).1 hnh)
     obtain ⟨r, hr, hw, he, hk, hg⟩ := ih { h with nodes := AL.set h.nodes n md } (by
       intro m hm
       rw [hkeys]
@@ -75,7 +91,7 @@ theorem reinsert_eq (src h : Content κ) (k : κ) (w : W) (md : Meta)
     (hunit : src.weighted = false → w = unitW) (hk : k ∉ keysOf h) :
     reinsert src h k =
       some { h with edges := h.edges ++ [(k, (w, md))], nodes := touchL h.nodes (Keyed.members k) } := by
-  have hg : AL.get? src.edges k = some (w, md) := AL.get?_of_mem_nodup _ _ _ hnd hmem
+  have hg : AL.get? src.edges k = some (w, md) := C05AL.get?_of_mem_nodup _ _ _ hnd hmem
   have hn : AL.get? h.edges k = none := (AL.get?_eq_none_iff _ _).2 hk
   simp only [reinsert, getWeight, getEdgeMeta, hg, Option.map_some, Option.bind_eq_bind, Option.bind_some,
     addEdge, hw, weightOk_reinsert, ↓reduceIte, addEdgeCore, hn, addEdgeNew, touchAll]
@@ -88,7 +104,7 @@ theorem reinsertBare_eq (src h : Content κ) (k : κ) (w : W) (md : Meta)
     (hunit : src.weighted = false → w = unitW) (hk : k ∉ keysOf h) :
     reinsertBare src h k =
       some { h with edges := h.edges ++ [(k, (w, []))], nodes := touchL h.nodes (Keyed.members k) } := by
-  have hg : AL.get? src.edges k = some (w, md) := AL.get?_of_mem_nodup _ _ _ hnd hmem
+  have hg : AL.get? src.edges k = some (w, md) := C05AL.get?_of_mem_nodup _ _ _ hnd hmem
   have hn : AL.get? h.edges k = none := (AL.get?_eq_none_iff _ _).2 hk
   simp only [reinsertBare, getWeight, hg, Option.map_some, Option.bind_eq_bind, Option.bind_some,
     addEdge, hw, weightOk_reinsert, ↓reduceIte, addEdgeCore, hn, addEdgeNew, touchAll]
@@ -119,7 +135,7 @@ theorem foldReinsert (src : Content κ) (hnd : (keysOf src).Nodup)
     have := ih { h with edges := h.edges ++ [(k, (w, md))], nodes := touchL h.nodes (Keyed.members k) }
       (fun e he => hsub e (by simp [he])) hnodup.2 (by
         intro k' hk'
-        simp only [keysOf, AL.keys_append, List.mem_append, not_or]
+        simp only [keysOf, C05AL.keys_append, List.mem_append, not_or]
         refine ⟨hdisj k' (by simp only [AL.keys, List.map_cons, List.mem_cons]; right; exact hk'), ?_⟩
         simp only [AL.keys, List.map_cons, List.map_nil, List.mem_singleton]
         intro e; subst e; exact hnodup.1 hk') hw
@@ -148,7 +164,7 @@ theorem foldReinsertBare (src : Content κ) (hnd : (keysOf src).Nodup)
     have := ih { h with edges := h.edges ++ [(k, (w, []))], nodes := touchL h.nodes (Keyed.members k) }
       (fun e he => hsub e (by simp [he])) hnodup.2 (by
         intro k' hk'
-        simp only [keysOf, AL.keys_append, List.mem_append, not_or]
+        simp only [keysOf, C05AL.keys_append, List.mem_append, not_or]
         refine ⟨hdisj k' (by simp only [AL.keys, List.map_cons, List.mem_cons]; right; exact hk'), ?_⟩
         simp only [AL.keys, List.map_cons, List.map_nil, List.mem_singleton]
         intro e; subst e; exact hnodup.1 hk') hw
@@ -176,12 +192,12 @@ theorem foldCopyEdgeMeta (src : Content κ) :
   | cons k ks ih =>
     intro h hall
     obtain ⟨hkh, hks⟩ := hall k (by simp)
-    obtain ⟨v, hv⟩ := Option.isSome_iff_exists.1 ((AL.mem_keys_iff _ _).1 hkh)
-    obtain ⟨s, hs⟩ := Option.isSome_iff_exists.1 ((AL.mem_keys_iff _ _).1 hks)
+    obtain ⟨v, hv⟩ := Option.isSome_iff_exists.1 ((C05AL.mem_keys_iff _ _).1 hkh)
+    obtain ⟨s, hs⟩ := Option.isSome_iff_exists.1 ((C05AL.mem_keys_iff _ _).1 hks)
     have hstep := copyEdgeMeta_eq src h k v s hs hv
     have hkeys : keysOf ({ h with edges := AL.set h.edges k (v.1, s.2) } : Content κ) = keysOf h := by
       simp only [keysOf]
-      exact AL.keys_set_of_mem _ _ _ ((AL.mem_keys_iff _ _).1 hkh)
+      exact AL.keys_set_of_mem _ _ _ ((C05AL.mem_keys_iff _ _).1 hkh)
     obtain ⟨r, hr, hw, hn, hk, hg⟩ := ih { h with edges := AL.set h.edges k (v.1, s.2) } (by
       intro m hm
       rw [hkeys]
